@@ -75,6 +75,12 @@ theorem deliver_ok_all_effects (tx : Tx) (parent : Store) (block ctxMeter : Mete
   · rw [e] at h ⊢
     exact (runFrame_spec tx _ (fresh_init parent block (Meter.pass ctxMeter head) vm block.gasConsumed)).1 h
 
+/-- the `crash = false` hypothesis above always holds for a block meter installed by
+BeginBlock (in any state charging can bring it to): runTx's prelude cannot panic -/
+theorem no_crash (tx : Tx) (parent : Store) (block ctxMeter : Meter) (vm : Store) (hwf : BlockWF block) :
+    (runTx .deliver tx parent block ctxMeter vm).crash = false :=
+  runTx_no_crash finishDeliver tx parent block ctxMeter vm hwf
+
 /-- the statement holds on the model as it is now (after the fix f77314a29b) -/
 theorem atomic : atomic_statement := by
   intro tx parent block ctxMeter vm hc
